@@ -40,6 +40,18 @@ HB_PATCH = ("parsec/hbbuffer.h", r"items\[1\]", "items[VP_HBSIZE]")
 # a 128-bit integer and every read of .data.item re-creates a pointer from an integer (ll_e2_21: out of 12 GB).  The overlay
 # copy performs the SAME compare-and-swap field by field (identical for complete, non-interleaved operations -- the only
 # kind of step in this property; the interleaved behaviour of the real CAS is C30's subject) and drops the alias member.
+# hbbuffer.c allocates sizeof(struct)+(size-1)*sizeof(ptr): with items[VP_HBSIZE] declared in the overlay header the struct
+# itself is large enough, and an allocation of exactly sizeof(T) is a typed object for CBMC instead of a byte array.
+HBNEW_PATCH = ("parsec/hbbuffer.c", r"calloc\(1, sizeof\(parsec_hbbuffer_t\) \+ \(size-1\)\*sizeof\(parsec_list_item_t\*\)\)",
+               "calloc(1, sizeof(parsec_hbbuffer_t))")
+# parsec_atomic_cas_ptr casts its operands to int64_t and CASes integers: every pointer stored that way loses its object for
+# CBMC (lfq_e2_21_q1: 5.1 M variables, no verdict in 15 min; with a pointer-typed CAS 0.33 M variables, 45 s).
+ATOMIC_H = "parsec/include/parsec/sys/atomic.h"
+CASPTR_PATCHES = [
+    (ATOMIC_H, r"return parsec_atomic_cas_int64\(\(volatile int64_t\*\)l, \(int64_t\)o, \(int64_t\)n\);",
+     "return __sync_bool_compare_and_swap((void* volatile*)l, o, n) ? 1 : 0;"),
+    ("parsec/include/parsec/sys/atomic-gcc.h", r"\A", ""),     # unchanged copy: atomic.h includes it by relative name
+]
 LIFO_H = "parsec/class/lifo.h"
 LIFO_PATCHES = [
     (LIFO_H, r"parsec_counted_pointer_t elem = \{\.data = .*\n\s*return parsec_atomic_cas_int128\(&addr->value, old\.value, elem\.value\);",
@@ -50,10 +62,8 @@ LIFO_PATCHES = [
 
 
 def _ov_inc(ctx, q, qdir, overlays):
-    for o in list(overlays):
-        d = os.path.join(o, "parsec", "include")
-        if os.path.isdir(d) and d not in overlays:
-            overlays.insert(0, d)
+    new = [os.path.join(o, "parsec", "include") for o in overlays]
+    overlays[:0] = [d for d in new if os.path.isdir(d) and d not in overlays]
 
 
 # loops that spin on a CAS / lock: one pass when operations do not interleave (the unwinding assertions check it)
@@ -74,10 +84,12 @@ def _q(m, nes=2, n1=2, n2=1, resched=False, tiers=("quick", "thorough"), qsize=N
        unwind=6, extra_defs=(), timeout=2400, slow=False, dist=None, streams=None):
     defs = ["M=" + m, 'MODFILE="%s"' % UNIT[m], "NES=%d" % nes, "N1=%d" % n1, "N2=%d" % n2]
     srcs = ["h.c"]
-    patches = [CMP_PATCH, ES_PATCH]
+    patches = [CMP_PATCH, ES_PATCH] + CASPTR_PATCHES
+    restrict_fp = []
     units = ["parsec/class/list.h", "parsec/class/list_item.h", "parsec/class/parsec_list.c", "parsec/mca/sched/sched_local_queues_utils.h"]
     stubs = ["parsec_barrier_wait -> counting no-op", "parsec_class_initialize -> static-table equivalent",
-             "parsec_output* -> empty", "COMPARISON_VAL -> char* arithmetic (overlay)"]
+             "parsec_output* -> empty", "COMPARISON_VAL -> char* arithmetic (overlay)",
+             "parsec_atomic_cas_ptr -> __sync_bool_compare_and_swap on the pointer type instead of on int64_t casts (overlay)"]
     unwindset = list(UW[m]) + ["sched_%s_select.0:%d" % (m, nes + 1)]
     enumerated = ["module " + m, "streams = %d" % nes, "ring sizes %d,%d" % (n1, n2)]
     if m in STRONG:
@@ -107,7 +119,12 @@ def _q(m, nes=2, n1=2, n2=1, resched=False, tiers=("quick", "thorough"), qsize=N
     if m in HB:
         defs += ["NEED_HB", "WIT_FAR"]
         units += ["parsec/hbbuffer.c", "parsec/hbbuffer.h"]
-        patches.append(HB_PATCH)
+        patches += [HB_PATCH, HBNEW_PATCH]
+        stubs.append("parsec_hbbuffer_new allocates sizeof(parsec_hbbuffer_t) with items[VP_HBSIZE] (overlay) instead of struct + tail")
+        site = "parsec_hbbuffer_push_all_by_priority" if m == "pbq" else "parsec_hbbuffer_push_all"
+        restrict_fp.append((site + ".function_pointer_call.1",
+                            ["parsec_mca_sched_push_in_system_queue_wrapper"] + (["parsec_mca_sched_push_in_buffer_wrapper"] if m == "lhq" else [])))
+        unwindset += ["parsec_hbbuffer_pop_best.1:1"]
     if m == "ltq":
         defs.append("NEED_HEAP")
         units += ["parsec/maxheap.c", "parsec/maxheap.h"]
@@ -141,7 +158,7 @@ def _q(m, nes=2, n1=2, n2=1, resched=False, tiers=("quick", "thorough"), qsize=N
     if streams is not None:
         nm += "_s%d%d%d" % streams
     return Q(nm, srcs, defs=defs + list(extra_defs), unwind=unwind, unwindset=unwindset, object_bits=12, units=[UNIT[m]] + units, info=info,
-             timeout=timeout, patches=patches, gen=_ov_inc, tiers=tiers, slow=slow)
+             timeout=timeout, patches=patches, gen=_ov_inc, tiers=tiers, slow=slow, restrict_fp=restrict_fp)
 
 
 def queries(ctx):
